@@ -1,7 +1,92 @@
-"""T-data translator for C05: extracts keep-masks, scatter pieces, range tests and read-back pieces from the text of
-runtime/src/{aarch64,riscv}.rs into lean/DynasmVerif/Generated/RelocSpec.lean (compared with Model.Reloc by `decide`).
-Stage 2 — not built yet: returns "absent" and the check relies on the exhaustive correspondence stream alone."""
+"""T-bits tie for C05: `lib/reloctrans.py` translates the TEXT of runtime/src/{relocations,aarch64,riscv,x64,x86}.rs into
+lean/DynasmVerif/Generated/RelocCode.lean (per format: error condition, written word, read-back value as bit-vector functions);
+`Props/C05Spec.lean` proves them equal to the model the C05 theorems are stated about. The same IR is evaluated here and compared with
+what the compiled implementation answers on every explicit request of the correspondence stream (`validate`): that ties the
+translator's reading of Rust to rustc's."""
+import os
+import re
+
+import common
+import reloctrans
+
+TARGET = os.path.join(common.LEAN, "DynasmVerif", "Generated", "RelocCode.lean")
+_state = {}
+
+
+def code_name(proto):
+    fam, _, rest = proto.partition(".")
+    if fam in ("p", "x64", "x86"):
+        return "x." + rest
+    return proto
 
 
 def generate(run):
-    return False, "absent"
+    try:
+        tr = reloctrans.translate_all()
+    except reloctrans.Untranslatable as ex:
+        _state.clear()
+        return False, f"the relocation code can no longer be translated (lib/reloctrans.py): {ex}"
+    reloctrans.emit_lean(tr, TARGET)
+    _state["tr"] = tr
+    run.coverage.setdefault("distribution_extra", {})["translated_formats"] = sorted(tr)
+    return True, "generated"
+
+
+def validate(run, results):
+    """compare the translation, evaluated in python, with the implementation's answers; returns number of comparisons"""
+    tr = _state.get("tr")
+    if not tr:
+        return 0
+    n, bad = 0, []
+    for (pairs, _diffs, _rcs) in results:
+        for item in pairs:
+            req, ans = item[0], item[1]
+            parts = req.split()
+            if parts[0] not in ("w", "r"):
+                continue
+            d = tr.get(code_name(parts[1]))
+            if d is None:
+                continue
+            word = int.from_bytes(bytes.fromhex(parts[2][1:]), "little")
+            if parts[0] == "w":
+                got = reloctrans.evaluate_write(d, word, int(parts[3]))
+                if got == "err":
+                    want = "impossible"
+                elif got == "panic":
+                    want = "panic"
+                else:
+                    want = "ok x" + int(got.split()[1]).to_bytes(8, "little")[:d["size"]].hex()
+            else:
+                got = reloctrans.evaluate_read(d, word)
+                want = "panic" if got == "panic" else str(got)
+            n += 1
+            if want != ans and len(bad) < 5:
+                bad.append({"request": req, "implementation": ans, "translation": want})
+    if bad:
+        run.violation("broken-correspondence", {"kind": "reloc-translation-differs", "fmt": bad[0]["request"].split()[1]},
+                      f"the translation of the relocation source text evaluates differently from the compiled implementation: {bad[0]}",
+                      {"differences": bad, "note": "translator (lib/reloctrans.py) and rustc disagree about the same text"}, found_input=False)
+    return n
+
+
+def counterexample_requests(log, formats):
+    """bv_decide prints `old = N#64` / `v = N#64` / `w = N#64` for a failing obligation: turn them into explicit requests for every format"""
+    vals = {}
+    for name, num in re.findall(r"\b(old|v|w)\s*=\s*(?:0x)?([0-9a-fA-F]+)#64", log or ""):
+        try:
+            vals.setdefault(name, int(num))
+        except ValueError:
+            vals.setdefault(name, int(num, 16))
+    if not vals:
+        return []
+    reqs = []
+    for name, (size, *_rest) in sorted(formats.items()):
+        mask = (1 << (8 * size)) - 1
+        if "v" in vals:
+            v = vals["v"] - (1 << 64) if vals["v"] >> 63 else vals["v"]
+            old = vals.get("old", 0) & mask
+            reqs.append(f"w {name} x{old.to_bytes(size, 'little').hex()} {v}")
+        for key in ("w", "old"):
+            if key in vals:
+                reqs.append(f"r {name} x{(vals[key] & mask).to_bytes(size, 'little').hex()}")
+    return reqs
